@@ -11,7 +11,29 @@ Theorems over ℝ about `Model/Presc.lean` (state machine of `Optic`/`SurfaceGro
 namespace C01
 open Model
 
-/-! ### wavelengths: exactly one primary after any sequence of additions -/
+/-! ### list helpers -/
+
+theorem modifyAt_length {β : Type} (l : List β) (k : Nat) (f : β → β) : (modifyAt l k f).length = l.length := by
+  simp [modifyAt]
+
+theorem modifyAt_getElem? {β : Type} (l : List β) (k i : Nat) (f : β → β) :
+    (modifyAt l k f)[i]? = if i = k then l[i]?.map f else l[i]? := by
+  simp only [modifyAt, List.getElem?_mapIdx]
+  cases h : l[i]? with
+  | none => simp
+  | some x => by_cases hik : i = k <;> simp [hik]
+
+/-- a modification that preserves a projection preserves the projected list -/
+theorem map_modifyAt {β γ : Type} (l : List β) (k : Nat) (f : β → β) (g : β → γ) (h : ∀ x, g (f x) = g x) :
+    (modifyAt l k f).map g = l.map g := by
+  apply List.ext_getElem?
+  intro i
+  simp only [List.getElem?_map, modifyAt_getElem?]
+  by_cases hik : i = k
+  · simp only [hik, if_true]; cases l[k]? <;> simp [h]
+  · simp [hik]
+
+/-! ### wavelengths: exactly one primary after any history -/
 
 def countPrimary (ws : List (ℝ × Bool)) : Nat := (ws.filter (·.2)).length
 
@@ -35,5 +57,354 @@ theorem addWave_primary (P : Presc ℝ) (v : ℝ) (p : Bool)
         simp [Function.comp_def]
       rw [this]
       by_cases he : (List.map (fun w : ℝ × Bool => (w.1, false)) P.waves).isEmpty = true <;> simp [he]
+
+theorem applyPickup_waves (P : Presc ℝ) (p : Pickup ℝ) : (applyPickup P p).waves = P.waves := by
+  unfold applyPickup; cases p.attr <;> rfl
+
+theorem applySolve_waves (P : Presc ℝ) (s : Solve ℝ) : (applySolve P s).waves = P.waves := rfl
+
+theorem foldl_waves {β : Type} (f : Presc ℝ → β → Presc ℝ) (hf : ∀ P x, (f P x).waves = P.waves) :
+    ∀ (l : List β) (P : Presc ℝ), (l.foldl f P).waves = P.waves
+  | [], _ => rfl
+  | x :: l, P => by rw [List.foldl_cons, foldl_waves f hf l, hf]
+
+theorem update_waves (P : Presc ℝ) : (update P).waves = P.waves := by
+  unfold update
+  rw [foldl_waves applySolve applySolve_waves, foldl_waves applyPickup applyPickup_waves]
+
+theorem scaleSystem_waves (P : Presc ℝ) (s : ℝ) (a b : List Bool) : (scaleSystem P s a b).waves = P.waves := by
+  unfold scaleSystem
+  simp only
+  have h : ∀ (l : List Nat) (Q : Presc ℝ) (n : Nat) (radii thick : List ℝ),
+      (l.foldl (fun P k =>
+        let P := if a.getD k false then P else setRadius P (radii.getD k 0 * s) k
+        if k ≠ n - 1 ∧ !(b.getD k false) then setThickness P (thick.getD k 0 * s) k else P) Q).waves = Q.waves := by
+    intro l Q n radii thick
+    apply foldl_waves
+    intro P k
+    split_ifs <;> rfl
+  split <;> exact h _ _ _ _ _
+
+/-- only `add_wavelength` touches the wavelength list -/
+theorem step_waves (P P' : Presc ℝ) (op : Op ℝ) (h : step P op = .ok P') :
+    P'.waves = P.waves ∨ ∃ v p, P' = addWave P v p := by
+  cases op with
+  | addWave v p => right; exact ⟨v, p, by simp only [step] at h; injection h with h; exact h.symm⟩
+  | add a =>
+    left
+    simp only [step, addSurface] at h
+    split at h
+    · exact absurd h (by simp)
+    · split at h
+      · exact absurd h (by simp)
+      · injection h with h; rw [← h]
+  | remove i =>
+    left
+    simp only [step, removeSurface] at h
+    split_ifs at h
+    injection h with h; rw [← h]
+  | setCoeff v k i =>
+    left
+    simp only [step] at h
+    split at h
+    · exact absurd h (by simp)
+    · split_ifs at h
+      injection h with h; rw [← h]; rfl
+  | pickupAdd p => left; simp only [step] at h; injection h with h; rw [← h]; exact applyPickup_waves P p
+  | solveAdd s => left; simp only [step] at h; injection h with h; rw [← h]; rfl
+  | update => left; simp only [step] at h; injection h with h; rw [← h]; exact update_waves P
+  | imageSolve => left; simp only [step] at h; injection h with h; rw [← h]; rfl
+  | scale s a b => left; simp only [step] at h; injection h with h; rw [← h]; exact scaleSystem_waves P s a b
+  | setRadius v k | setConic v k | setThickness v k | setIndex v k | setTiltX v k | setTiltY v k
+  | setDecX v k | setDecY v k =>
+    left
+    simp only [step, guardIdx] at h
+    split_ifs at h
+    injection h with h; rw [← h]; try rfl
+
+/-- **primary_exactly_one**: after any history of public calls, as soon as there is a wavelength
+exactly one is primary -/
+theorem primary_exactly_one (ops : List (Op ℝ)) (P : Presc ℝ)
+    (h : P.waves = [] ∨ countPrimary P.waves = 1) :
+    (runOps P ops).waves = [] ∨ countPrimary (runOps P ops).waves = 1 := by
+  induction ops generalizing P with
+  | nil => exact h
+  | cons op ops ih =>
+    simp only [runOps, List.foldl_cons]
+    cases hs : step P op with
+    | error e => exact ih P h
+    | ok P' =>
+      apply ih
+      rcases step_waves P P' op hs with hw | ⟨v, p, rfl⟩
+      · rw [hw]; exact h
+      · right; exact addWave_primary P v p h
+
+/-! ### at most one stop -/
+
+def countStop (ss : List (SRec ℝ)) : Nat := (ss.filter (·.stop)).length
+
+theorem countStop_append (a b : List (SRec ℝ)) : countStop (a ++ b) = countStop a + countStop b := by
+  simp [countStop, List.filter_append]
+
+theorem countStop_take_drop (l : List (SRec ℝ)) (i : Nat) :
+    countStop (l.take i) + countStop (l.drop i) = countStop l := by
+  rw [← countStop_append, List.take_append_drop]
+
+theorem countStop_clear (l : List (SRec ℝ)) : countStop (l.map fun t => { t with stop := false }) = 0 := by
+  simp [countStop, List.filter_map, Function.comp_def]
+
+/-- **stop_at_most_one** (addition anywhere): adding a surface keeps at most one stop -/
+theorem addSurface_stop (P P' : Presc ℝ) (a : AddArgs ℝ) (h : addSurface P a = .ok P')
+    (h1 : countStop P.surfs ≤ 1) : countStop P'.surfs ≤ 1 := by
+  simp only [addSurface] at h
+  split at h
+  · exact absurd h (by simp)
+  · split at h
+    · exact absurd h (by simp)
+    · injection h with h
+      rw [← h]
+      simp only
+      rw [countStop_append, countStop_append]
+      by_cases hstop : (if a.index = 0 then false else a.stop) = true
+      · simp only [hstop, if_true]
+        have := countStop_take_drop (P.surfs.map fun t => { t with stop := false }) a.index
+        rw [countStop_clear] at this
+        simp only [countStop, List.filter_cons, hstop, if_true, List.filter_nil, List.length_cons, List.length_nil] at *
+        omega
+      · have hf : (if a.index = 0 then false else a.stop) = false := by
+          cases hh : (if a.index = 0 then false else a.stop) <;> simp_all
+        simp only [hf, Bool.false_eq_true, if_false]
+        have := countStop_take_drop P.surfs a.index
+        simp only [countStop, List.filter_cons, hf, Bool.false_eq_true, if_false, List.filter_nil,
+          List.length_nil] at *
+        omega
+
+theorem countStop_eraseIdx (l : List (SRec ℝ)) (i : Nat) : countStop (l.eraseIdx i) ≤ countStop l := by
+  unfold countStop
+  exact List.Sublist.length_le (List.Sublist.filter _ (List.eraseIdx_sublist l i))
+
+theorem countStop_of_map_eq (l l' : List (SRec ℝ)) (h : l'.map (·.stop) = l.map (·.stop)) :
+    countStop l' = countStop l := by
+  have e : ∀ m : List (SRec ℝ), countStop m = ((m.map (·.stop)).filter id).length := by
+    intro m; simp [countStop, List.filter_map, Function.comp_def]
+  rw [e, e, h]
+
+/-! ### read-back and frame conditions of the setters -/
+
+/-- `SurfaceGroup.radii[k]`, `conic[k]` … as partial reads -/
+def radiusAt (P : Presc ℝ) (k : Nat) : Option ℝ := P.surfs[k]?.map (·.radius)
+def conicAt (P : Presc ℝ) (k : Nat) : Option ℝ := P.surfs[k]?.map (·.conic)
+
+/-- **set_radius**: reads back, changes no other radius, no vertex, no medium, no stop flag -/
+theorem setRadius_readback_frame (P : Presc ℝ) (v : ℝ) (k : Nat) (hk : k < P.surfs.length) :
+    radiusAt (setRadius P v k) k = some v ∧
+    (∀ j, j ≠ k → radiusAt (setRadius P v k) j = radiusAt P j) ∧
+    positions (setRadius P v k) = positions P ∧
+    (setRadius P v k).surfs.map (·.mPre) = P.surfs.map (·.mPre) ∧
+    (setRadius P v k).surfs.map (·.mPost) = P.surfs.map (·.mPost) ∧
+    (setRadius P v k).surfs.map (·.stop) = P.surfs.map (·.stop) ∧
+    (setRadius P v k).mats = P.mats := by
+  have hf : ∀ (g : SRec ℝ → SRec ℝ), True := fun _ => trivial
+  refine ⟨?_, ?_, ?_, ?_, ?_, ?_, rfl⟩
+  · simp only [radiusAt, setRadius, modifyAt_getElem?, if_true]
+    rw [List.getElem?_eq_getElem hk]
+    simp only [Option.map_some]
+    cases (P.surfs[k]).gk <;> rfl
+  · intro j hj
+    simp only [radiusAt, setRadius, modifyAt_getElem?, hj, if_false]
+  all_goals
+    simp only [positions, setRadius]
+    apply map_modifyAt
+    intro x; cases x.gk <;> rfl
+
+/-- **set_conic**: reads back and changes nothing else -/
+theorem setConic_readback_frame (P : Presc ℝ) (v : ℝ) (k : Nat) (hk : k < P.surfs.length) :
+    conicAt (setConic P v k) k = some v ∧
+    (∀ j, j ≠ k → conicAt (setConic P v k) j = conicAt P j) ∧
+    positions (setConic P v k) = positions P ∧
+    (setConic P v k).surfs.map (·.radius) = P.surfs.map (·.radius) ∧
+    (setConic P v k).surfs.map (·.mPost) = P.surfs.map (·.mPost) := by
+  refine ⟨?_, ?_, ?_, ?_, ?_⟩
+  · simp only [conicAt, setConic, modifyAt_getElem?, if_true]
+    rw [List.getElem?_eq_getElem hk]; rfl
+  · intro j hj
+    simp only [conicAt, setConic, modifyAt_getElem?, hj, if_false]
+  all_goals
+    simp only [positions, setConic]
+    apply map_modifyAt
+    intro x; rfl
+
+/-! ### set_thickness on the vector of vertex positions -/
+
+def thick (pos : List ℝ) (j : Nat) : ℝ := pos.getD (j+1) 0 - pos.getD j 0
+
+theorem getD_setThicknessPos (pos : List ℝ) (v : ℝ) (k i : Nat) (hi : i < pos.length) (h1 : 1 < pos.length) :
+    (setThicknessPos pos v k).getD i 0 =
+      (if k + 1 ≤ i then pos.getD i 0 + (v - pos.getD (k+1) 0 + pos.getD k 0) else pos.getD i 0)
+      - (if k + 1 ≤ 1 then pos.getD 1 0 + (v - pos.getD (k+1) 0 + pos.getD k 0) else pos.getD 1 0) := by
+  unfold setThicknessPos
+  num_real
+  simp only [List.getD_eq_getElem?_getD, List.getElem?_map, List.getElem?_mapIdx]
+  rw [List.getElem?_eq_getElem hi]
+  simp only [Option.map_some, Option.getD_some]
+  rw [List.getElem?_eq_getElem h1]
+  simp only [Option.map_some, Option.getD_some]
+
+/-- **setThickness_frame**: thickness `k` reads back `v`; every other thickness is unchanged, i.e.
+all later vertices move rigidly -/
+theorem setThickness_thick (pos : List ℝ) (v : ℝ) (k j : Nat) (hk : k + 1 < pos.length)
+    (hj : j + 1 < pos.length) :
+    thick (setThicknessPos pos v k) j = if j = k then v else thick pos j := by
+  unfold thick
+  rw [getD_setThicknessPos pos v k (j+1) hj (by omega), getD_setThicknessPos pos v k j (by omega) (by omega)]
+  by_cases h : j = k
+  · subst h
+    have h1 : ¬ (j + 1 ≤ j) := by omega
+    simp only [le_refl, if_true, h1, if_false]; ring
+  · by_cases h1 : k + 1 ≤ j
+    · have h2 : k + 1 ≤ j + 1 := by omega
+      simp only [h, h1, h2, if_true, if_false]; ring
+    · have h2 : ¬ (k + 1 ≤ j + 1) := by omega
+      simp only [h, h1, h2, if_false]; ring
+
+/-- the first surface is re-zeroed -/
+theorem setThickness_first (pos : List ℝ) (v : ℝ) (k : Nat) (h1 : 1 < pos.length) :
+    (setThicknessPos pos v k).getD 1 0 = 0 := by
+  rw [getD_setThicknessPos _ _ _ _ h1 h1]; ring
+
+/-- `set_thickness` touches nothing but the vertex positions -/
+theorem setThickness_frame (P : Presc ℝ) (v : ℝ) (k : Nat) :
+    (setThickness P v k).surfs.map (·.radius) = P.surfs.map (·.radius) ∧
+    (setThickness P v k).surfs.map (·.conic) = P.surfs.map (·.conic) ∧
+    (setThickness P v k).surfs.map (·.mPre) = P.surfs.map (·.mPre) ∧
+    (setThickness P v k).surfs.map (·.mPost) = P.surfs.map (·.mPost) ∧
+    (setThickness P v k).surfs.map (·.stop) = P.surfs.map (·.stop) ∧
+    (setThickness P v k).mats = P.mats := by
+  refine ⟨?_, ?_, ?_, ?_, ?_, rfl⟩ <;>
+  · simp only [setThickness, assignZ]
+    apply List.ext_getElem?
+    intro i
+    simp only [List.getElem?_map, List.getElem?_mapIdx]
+    cases P.surfs[i]? <;> rfl
+
+/-! ### media chain -/
+
+/-- the medium in front of each surface is (the same object as) the medium behind its predecessor -/
+def Chain (l : List (SRec ℝ)) : Prop :=
+  ∀ j a b, l[j]? = some a → l[j+1]? = some b → b.mPre = a.mPost
+
+/-- every operation that leaves the lists of front and back media untouched keeps the chain -/
+theorem chain_of_maps (l l' : List (SRec ℝ)) (h1 : l'.map (·.mPre) = l.map (·.mPre))
+    (h2 : l'.map (·.mPost) = l.map (·.mPost)) (hc : Chain l) : Chain l' := by
+  intro j a' b' ha hb
+  have e1 := congrArg (fun m => m[j+1]?) h1
+  have e2 := congrArg (fun m => m[j]?) h2
+  simp only [List.getElem?_map, ha, hb, Option.map_some] at e1 e2
+  cases hb0 : l[j+1]? with
+  | none => simp [hb0] at e1
+  | some b =>
+    cases ha0 : l[j]? with
+    | none => simp [ha0] at e2
+    | some a =>
+      simp only [hb0, ha0, Option.map_some, Option.some.injEq] at e1 e2
+      rw [e1, e2]; exact hc j a b ha0 hb0
+
+/-- **build_media_chain**: appending a surface whose front medium is the last surface's back medium
+(what `_configure_material` does) keeps the chain -/
+theorem chain_append (l : List (SRec ℝ)) (s : SRec ℝ) (hc : Chain l)
+    (hs : ∀ a, l[l.length - 1]? = some a → l ≠ [] → s.mPre = a.mPost) : Chain (l ++ [s]) := by
+  intro j a b ha hb
+  by_cases hj : j + 1 < l.length
+  · rw [List.getElem?_append_left (by omega)] at ha
+    rw [List.getElem?_append_left hj] at hb
+    exact hc j a b ha hb
+  · by_cases hj2 : j + 1 = l.length
+    · rw [List.getElem?_append_left (by omega)] at ha
+      rw [List.getElem?_append_right (by omega)] at hb
+      have : j + 1 - l.length = 0 := by omega
+      simp only [this, List.getElem?_cons_zero, Option.some.injEq] at hb
+      rw [← hb]
+      apply hs a
+      · have : l.length - 1 = j := by omega
+        rw [this]; exact ha
+      · intro e; simp [e] at hj2
+    · have : (l ++ [s])[j+1]? = none := by
+        apply List.getElem?_eq_none; simp; omega
+      rw [this] at hb; exact absurd hb (by simp)
+
+/-- **set_index keeps the chain**: the new medium is written behind surface `k` and in front of
+surface `k+1` -/
+theorem setIndex_getElem? (P : Presc ℝ) (v : ℝ) (k j : Nat) :
+    (setIndex P v k).surfs[j]? = (P.surfs[j]?).map (fun s =>
+      if j = k then { s with mPost := P.mats.length }
+      else if j = k + 1 then { s with mPre := P.mats.length } else s) := by
+  simp only [setIndex, modifyAt_getElem?]
+  cases h : P.surfs[j]? with
+  | none => by_cases h1 : j = k + 1 <;> by_cases h2 : j = k <;> simp [h1, h2]
+  | some s =>
+    by_cases h2 : j = k
+    · have h1 : ¬ (j = k + 1) := by omega
+      simp [h1, h2]
+    · by_cases h1 : j = k + 1 <;> simp [h1, h2]
+
+theorem setIndex_chain (P : Presc ℝ) (v : ℝ) (k : Nat) (hc : Chain P.surfs) : Chain (setIndex P v k).surfs := by
+  intro j a b ha hb
+  rw [setIndex_getElem?] at ha hb
+  cases h0 : P.surfs[j]? with
+  | none => simp [h0] at ha
+  | some a0 =>
+    cases h1 : P.surfs[j+1]? with
+    | none => simp [h1] at hb
+    | some b0 =>
+      have hab := hc j a0 b0 h0 h1
+      simp only [h0, h1, Option.map_some, Option.some.injEq] at ha hb
+      rw [← ha, ← hb]
+      by_cases c1 : j = k
+      · have c2 : ¬ (j + 1 = k) := by omega
+        have c3 : j + 1 = k + 1 := by omega
+        simp [c1, c2, c3]
+      · by_cases c2 : j = k + 1
+        · subst c2
+          have c3 : ¬ (k + 1 + 1 = k) := by omega
+          have c4 : ¬ (k + 1 + 1 = k + 1) := by omega
+          have c5 : ¬ (k + 1 = k) := by omega
+          simp [c3, c4, c5, hab]
+        · by_cases c3 : j + 1 = k
+          · have c4 : ¬ (j + 1 = k + 1) := by omega
+            simp [c1, c2, c3, c4, hab]
+          · have c4 : ¬ (j + 1 = k + 1) := by omega
+            simp [c1, c2, c3, c4, hab]
+
+/-! ### pickups and solves: the single-step algebra -/
+
+/-- **pickup (radius)**: immediately after a radius pickup is applied its target satisfies
+`target = scale·source + offset` (source ≠ target, both in range) -/
+theorem applyPickup_radius (P : Presc ℝ) (p : Pickup ℝ) (ha : p.attr = .radius) (hne : p.src ≠ p.tgt)
+    (hs : p.src < P.surfs.length) (ht : p.tgt < P.surfs.length) :
+    ∃ rs, radiusAt P p.src = some rs ∧ radiusAt (applyPickup P p) p.src = some rs ∧
+      radiusAt (applyPickup P p) p.tgt = some (p.scale * rs + p.offset) := by
+  refine ⟨(P.surfs[p.src]).radius, ?_, ?_, ?_⟩
+  · simp [radiusAt, List.getElem?_eq_getElem hs]
+  · simp only [applyPickup, ha]
+    rw [(setRadius_readback_frame P _ p.tgt ht).2.1 p.src hne]
+    simp [radiusAt, List.getElem?_eq_getElem hs]
+  · simp only [applyPickup, ha]
+    num_real
+    rw [(setRadius_readback_frame P _ p.tgt ht).1]
+    simp [List.getD_eq_getElem?_getD, List.getElem?_map, List.getElem?_eq_getElem hs]
+
+/-- **solve (step algebra)**: moving a surface axially by `d` changes the paraxial height with which
+a ray of slope `u` arrives by `d·u`; choosing `d = (h − y)/u` (what the solve computes from the
+arriving slope) puts the ray at height `h`. -/
+theorem solve_places_ray_step (r : PRay ℝ) (s : PSurf ℝ) (h : ℝ) (hdy : s.dy = 0) (hu : r.u ≠ 0) :
+    let y := (pstepStd r s).y
+    let d := (h - y) / r.u
+    (pstepStd r { s with z := s.z + d }).y = h := by
+  intro y d
+  simp only [d, y, pstepStd]
+  num_real
+  rw [hdy]
+  field_simp
+  ring
 
 end C01
